@@ -65,6 +65,19 @@ class C03(Prop):
     def fixed_cases(self):
         return []
 
+    def enumerated(self, tier):
+        # deterministic sweep: every corpus script followed by its successor, and preceded by it, with an unsupported
+        # statement in between
+        n = len(universe.corpus())
+        sel = {"family": "rejected", "text": "SELECT a, b FROM t WHERE a > 1;"}
+        for i in range(n):
+            j = (i + 1) % n
+            yield {"src": "corpus", "items": [i, j], "between": [None, None, None]}
+            yield {"src": "corpus", "items": [j, i], "between": [None, sel, None]}
+            if tier == "thorough":
+                for d in (7, 31, 101):
+                    yield {"src": "corpus", "items": [i, (i + d) % n, (i + 2 * d) % n], "between": [sel, None, None, sel]}
+
     # ---- generated scripts
     def texts(self, case):
         """-> list of (block, text) in script order; text of a block = its statements exactly as in the script"""
